@@ -379,6 +379,35 @@ def check(ctx):
                 break
         return verdict_all, why
 
+    # R3 (b): the passes themselves run for every compiler alike.  A pass that is skipped under an option of the compiler object -- a constructor argument, or a class-level
+    #         switch that the codec compilers override -- leaves the shared dictionary in a state that depends on which codec compiled it first.
+    class_switches = set()
+    for name in CODECS:
+        cc_ = model.mod('asn1tools/codecs/%s.py' % name).classes.get('Compiler')
+        if cc_ is not None:
+            class_switches |= set(cc_.attrs)
+    class_switches |= set(comp_cls_early.attrs) if (comp_cls_early := base.classes.get('Compiler')) is not None else set()
+    n3b = 0
+    for f in base.classes['Compiler'].methods.values():
+        for c_ in walk_no_nested(f):
+            if not (isinstance(c_, ast.Call) and isinstance(c_.func, ast.Attribute) and isinstance(c_.func.value, ast.Name) and c_.func.value.id == 'self'
+                    and c_.func.attr.startswith('pre_process')):
+                continue
+            n3b += 1
+            dep = None
+            for test, pol in flow.guards_of(c_, f):
+                for x_ in ast.walk(test):
+                    if isinstance(x_, ast.Attribute) and isinstance(x_.value, ast.Name) and x_.value.id == 'self' and (x_.attr in OPTION_ATTRS or x_.attr in class_switches):
+                        dep = x_
+            ctx.instance('C13.R3', '%s calls %s' % (Model.qual(f), c_.func.attr), 'for every compiler' if dep is None else 'VIOLATION', nontrivial=False, node=c_, file=BASE)
+            if dep is not None:
+                ctx.violation('C13.R3', BASE, c_, Model.qual(f),
+                              'the pass %s runs only under `%s`, a switch of the compiler object (per codec / per call): a dictionary compiled first by a compiler that skips the pass '
+                              'reaches the later passes - and every later compile - in another state than a freshly parsed one, so the second codec is built from other descriptors'
+                              % (c_.func.attr, ast.unparse(dep)), stmt='pass %s under a compiler switch' % c_.func.attr)
+    if n3b < 5:
+        raise AnalysisError('C13.R3 found only %d calls of pre-processing passes' % n3b)
+
     for f, node, root, desc in allowed_sites:
         cons = '%s [%s]' % (Model.qual(f), desc[:80])
         if f.name.startswith('_compile_any_defined_by'):
